@@ -113,50 +113,33 @@ def run(chk):
                 chk.require(got == ('ok', 0), 'C07.R3', w, q, f'calc_score(passed out {fb}, {v.name}, {t})',
                             'a passed-out board scores 0', f'passed-out contract ({fb}, {v.name}, {t} tricks) scores {got}')
 
-    # ---- R4 undertrick tables by role ------------------------------------------------------------------------
+    # ---- R4 undertrick penalties: the function is folded on its complete "down" domain (35 bids x 3 doubling states x 2
+    #      vulnerabilities x every trick count short of the contract) against the closed form of the Laws -------------------------
     w, q = floc(repo, 'score', 'calc_bid_score', 'C07.R4')
-    tables = {n: tuple(e.value if isinstance(e, ast.Constant) else (-e.operand.value) for e in v.elts)
-              for n, v in m.constants.items() if isinstance(v, ast.Tuple) and len(v.elts) == 13 and
-              all(isinstance(e, ast.UnaryOp) and isinstance(e.op, ast.USub) and isinstance(e.operand, ast.Constant) or
-                  isinstance(e, ast.Constant) for e in v.elts)}
-    bps = Summarizer(repo, 'C07.R4').function_paths('score', 'calc_bid_score')
-    seen = {}
-    for p in bps:
-        if p.end[0] != 'return' or p.end[1] is None:
-            continue
-        v = p.end[1]
-        subs = [n for n in ast.walk(v) if isinstance(n, ast.Subscript) and isinstance(n.value, ast.Name) and n.value.id in tables]
-        if not subs:
-            continue
-        val = {}
-        for c in p.conds():
-            t = ast.unparse(c.test)
-            if t in ('x', 'xx'):
-                val[t] = c.polarity
-        dbl = 'xx' if val.get('xx') else ('x' if val.get('x') else ('none' if val.get('xx') is False and val.get('x') is False else None))
-        if dbl is None:
-            raise AnalysisError('C07.R4', q, f'cannot bind doubling state for undertrick return `{ast.unparse(v)[:60]}`')
-        if isinstance(v, ast.IfExp) and ast.unparse(v.test) == 'vul':
-            arms = [(True, v.body), (False, v.orelse)]
-        elif isinstance(v, ast.Subscript):
-            vv = [c.polarity for c in p.conds() if ast.unparse(c.test) == 'vul']
-            if len(vv) != 1:
-                raise AnalysisError('C07.R4', q, 'cannot bind vulnerability for an undertrick return')
-            arms = [(vv[0], v)]
-        else:
-            raise AnalysisError('C07.R4', q, f'unrecognised undertrick return `{ast.unparse(v)[:60]}`')
-        for isvul, arm in arms:
-            if not (isinstance(arm, ast.Subscript) and isinstance(arm.value, ast.Name) and arm.value.id in tables):
-                raise AnalysisError('C07.R4', q, f'unrecognised undertrick arm `{ast.unparse(arm)}`')
-            name = arm.value.id
-            seen[(dbl, isvul)] = name
-            want = down_oracle(dbl, isvul)
-            chk.require(tables[name] == want, 'C07.R4', repo.where(m, m.constants[name]), f'score:{name}',
-                        f'{name} used for doubling={dbl}, vulnerable={isvul}',
-                        f'undertrick penalties for doubling={dbl}, vulnerable={isvul} follow the Laws',
-                        f'{name} (selected when doubling={dbl}, vulnerable={isvul}) = {tables[name][:5]}..., the Laws give {want[:5]}...')
-            a = affine(arm.slice)
-            wantidx = ({'bid.level': 1, 'taken_trick_num': -1}, 5)
-            chk.require(a == wantidx, 'C07.R4', repo.where(m, p.end[2]), q, f'{name}[{ast.unparse(arm.slice)}]',
-                        'the penalty is indexed by tricks short minus one', f'index `{ast.unparse(arm.slice)}` is not level+6-tricks-1')
-    chk.floor('C07.R4', 'undertrick (doubling, vulnerability) -> table bindings', len(seen), 6)
+    fb = __import__('sa.fold', fromlist=['Folder']).Folder(repo, allow_loops=True, max_steps=2_000_000)
+    n_dn = 0
+    first_bad = None
+    from ..fold import FoldRaise as _FR, Unsupported as _UN
+    for b in bids[:35]:
+        level = (b.value - 1) // 5 + 1
+        for dbl, (x_, xx_) in (('none', (False, False)), ('x', (True, False)), ('xx', (True, True))):
+            for isvul in (False, True):
+                want = down_oracle(dbl, isvul)
+                for taken in range(0, level + 6):
+                    n_dn += 1
+                    down = level + 6 - taken
+                    try:
+                        fb.steps = 0
+                        got = ('ok', fb.call_function('score', 'calc_bid_score', b, x_, xx_, isvul, taken))
+                    except _FR as r_:
+                        got = ('raise', r_.kind)
+                    except _UN as e_:
+                        raise AnalysisError('C07.R4', q, f'calc_bid_score left the foldable subset: {e_}')
+                    if got != ('ok', want[down - 1]) and first_bad is None:
+                        first_bad = (b, dbl, isvul, taken, down, got, want[down - 1])
+    chk.evals(n_dn)
+    chk.require(first_bad is None, 'C07.R4', w, q, 'undertrick penalties on the complete down domain',
+                f'all {n_dn} (bid, doubling, vulnerability, tricks short) cases score the penalty the Laws give',
+                (f'{first_bad[0]} {"redoubled" if first_bad[1] == "xx" else "doubled" if first_bad[1] == "x" else "undoubled"}, '
+                 f'{"vulnerable" if first_bad[2] else "not vulnerable"}, {first_bad[3]} tricks ({first_bad[4]} down): calc_bid_score = {first_bad[5]}, '
+                 f'the Laws give {first_bad[6]}') if first_bad else '')
